@@ -43,13 +43,19 @@ def rule_sharedmut(ctx, modules):
                     if isinstance(node, (ast.Assign, ast.AnnAssign)):
                         targets = node.targets if isinstance(node, ast.Assign) else [node.target]
                         val = node.value
-                        if isinstance(val, ast.Name):
-                            r = ctx.repo.resolve(m.name, val.id)
-                            if isinstance(r, tuple) and r[0] == "const" and _is_mutable_literal(r[1]):
-                                for t in targets:
-                                    d = dotted(t)
-                                    if d and d.startswith("self."):
-                                        bound[d] = (val.id, r[2].name, fi, node)
+                        alts = [val]
+                        if isinstance(val, ast.IfExp):
+                            alts = [val.body, val.orelse]
+                        elif isinstance(val, ast.BoolOp):
+                            alts = list(val.values)
+                        for val in alts:
+                            if isinstance(val, ast.Name):
+                                r = ctx.repo.resolve(m.name, val.id)
+                                if isinstance(r, tuple) and r[0] == "const" and _is_mutable_literal(r[1]):
+                                    for t in targets:
+                                        d = dotted(t)
+                                        if d and d.startswith("self."):
+                                            bound[d] = (val.id, r[2].name, fi, node)
             if not bound:
                 continue
             for attr, (gname, gmod, fi0, node0) in bound.items():
@@ -123,6 +129,39 @@ def _backups(fn):
     return out
 
 
+_EFFECT_CACHE = {}
+
+
+def _callee_tables(ctx, fi, call):
+    """element tables that a repository function called with the diagnostic's `net` can write (row set or columns)"""
+    from ppsa import facts
+    from ppsa.loader import FunctionInfo
+    if not (call.args and isinstance(call.args[0], ast.Name) and call.args[0].id == "net"):
+        return set()
+    name = dotted(call.func)
+    if not name:
+        return set()
+    r = ctx.repo.resolve(fi.module.name, name)
+    if not isinstance(r, FunctionInfo):
+        return set()
+    if not (r.module.name.startswith("pandapower.toolbox") or r.module.name.startswith("pandapower.create")):
+        return set()
+    if r.fq not in _EFFECT_CACHE:
+        try:
+            it, fr = facts.analyse(ctx.repo, r.fq, schema_cols=True, max_depth=5)
+            tabs = set()
+            for s_ in it.stores:
+                p_ = s_.path or ""
+                if p_.startswith("net.") and p_.count(".") >= 1:
+                    t = p_.split(".")[1]
+                    if not t.startswith(("res_", "_")) and t not in ("group", "?"):
+                        tabs.add(t)
+            _EFFECT_CACHE[r.fq] = tabs
+        except Exception:
+            _EFFECT_CACHE[r.fq] = set()
+    return _EFFECT_CACHE[r.fq]
+
+
 def rule_restore(ctx):
     R = "RESTORE"
     ctx.rule(R, "a diagnostic(net) that stores into net.<table> restores every changed column from its backup on every "
@@ -140,6 +179,7 @@ def rule_restore(ctx):
         stores = [s for s in stores if not str(s[0]).startswith(("res_", "_"))]
         if not stores:
             continue
+        fi_ = fi
         # functions working on a deep copy rebind `net` first
         rebinds = any(isinstance(x, ast.Assign) and any(isinstance(t, ast.Name) and t.id == "net" for t in x.targets)
                       and "deepcopy" in ast.unparse(x.value) for x in ast.walk(fi.node))
@@ -149,9 +189,17 @@ def rule_restore(ctx):
         n += 1
         backups = _backups(fi.node)
 
-        def transfer(st, state, backups=backups):
+        def transfer(st, state, backups=backups, fi_=fi):
             s = _net_store(st)
             if s is None:
+                # effects of toolbox / create functions called with the diagnostic's net
+                extra = set()
+                if isinstance(st, (ast.Expr, ast.Assign)):
+                    for c_ in ast.walk(st):
+                        if isinstance(c_, ast.Call):
+                            extra |= _callee_tables(ctx, fi_, c_)
+                if extra:
+                    return frozenset(set(state) | {(t_, None) for t_ in extra})
                 return state
             tab, col, val = s
             if str(tab).startswith(("res_", "_")):
@@ -201,6 +249,44 @@ def run(ctx):
     if not c2.violations():
         ctx.fail("SHAREDMUT positive control failed")
     rule_restore(ctx)
+    rule_result_fresh(ctx)
+
+
+def rule_result_fresh(ctx):
+    """the dictionary that diagnose_network returns is the caller's: a later call on the same instance must not empty or refill
+    it, so the attribute is rebound to a fresh object at the start of every call (never cleared in place)"""
+    R = "RESULT-FRESH"
+    ctx.rule(R, "every attribute that Diagnostic.diagnose_network returns (or fills as its result) is rebound to a fresh literal in the "
+                "method before it is filled and is never emptied in place (clear / pop / del): results already handed out stay intact")
+    fi = ctx.repo.func(f"{DG}:Diagnostic.diagnose_network")
+    returned = set()
+    for n in ast.walk(fi.node):
+        if isinstance(n, ast.Return) and n.value is not None:
+            for a in ast.walk(n.value):
+                d = dotted(a) if isinstance(a, ast.Attribute) else None
+                if d and d.startswith("self."):
+                    returned.add(d)
+    filled = set()
+    for n in ast.walk(fi.node):
+        if isinstance(n, ast.Assign) and isinstance(n.targets[0], ast.Subscript):
+            d = dotted(n.targets[0].value)
+            if d and d.startswith("self.diag_"):
+                filled.add(d)
+    attrs = sorted(returned | filled)
+    if not attrs:
+        ctx.fail("diagnose_network: result attributes not found")
+    sts = list(fi.node.body)
+    for a in attrs:
+        fresh_pos = [i for i, st in enumerate(sts) if isinstance(st, ast.Assign) and any(dotted(t) == a for t in st.targets)
+                     and (isinstance(st.value, (ast.Dict, ast.List)) or (isinstance(st.value, ast.Call) and dotted(st.value.func) in ("dict", "list")))]
+        inplace = [n for n in ast.walk(fi.node) if isinstance(n, ast.Call) and isinstance(n.func, ast.Attribute)
+                   and n.func.attr in ("clear", "pop", "popitem") and dotted(n.func.value) == a]
+        inplace += [n for n in ast.walk(fi.node) if isinstance(n, ast.Delete) and any(a in norm(t) for t in n.targets)]
+        ok = bool(fresh_pos) and not inplace
+        ctx.ob(R, f"{DG}::Diagnostic.diagnose_network::{a}", ok,
+               f"{a} is a fresh object in every call" if ok else
+               f"{a} is " + ("emptied in place" if inplace else "not rebound to a fresh object") +
+               ": the dictionary returned by an earlier call is changed by the next call on the same instance", fi.loc(inplace[0]) if inplace else fi.loc())
 
 
 def variants(repo):
@@ -208,6 +294,9 @@ def variants(repo):
     df = "pandapower/diagnostic/diagnostic_functions.py"
     V = Variant
     return [
+        V("kwargs shared through a conditional expression", dg, replace_once("self.kwargs = dict(default_argument_values)", "self.kwargs = default_argument_values if add_default_functions else {}"), "self.kwargs"),
+        V("ward rows of the xward replacement not restored", df, lambda s: s.replace("            ward_copy = copy.deepcopy(net.ward)\n", "", 1).replace("net.ward = ward_copy", "pass", 1), "ImplausibleImpedanceValues.diagnostic::normal-paths"),
+        V("results cleared in place", dg, lambda s: s.replace("        self.diag_results = {}\n        self.diag_errors = {}\n", "        self.diag_results.clear()\n        self.diag_errors.clear()\n", 1), "RESULT-FRESH"),
         V("kwargs shared", dg, replace_once("self.kwargs = dict(default_argument_values)", "self.kwargs = default_argument_values"), "self.kwargs"),
         V("functions shared", dg, replace_once("self._functions = list(default_diagnostic_functions)", "self._functions = default_diagnostic_functions"), "self._functions"),
         V("switch not restored on a swallowed failure", df, replace_once("            except expected_exceptions:\n                net.switch.closed = switch_configuration\n                return False\n", "            except expected_exceptions:\n                return False\n"), "WrongSwitchConfiguration.diagnostic::normal-paths"),
